@@ -129,6 +129,9 @@ def record(name, **kw):
 
 
 def contract(key, **kw):
+    if key in CONTRACTS:
+        # two contract files silently redefining one key changed the meaning of unrelated proofs twice (DESIGN 11): refuse
+        raise KeyError(f"contract {key} is defined twice (remove the earlier one explicitly with CONTRACTS.pop if a replacement is intended)")
     c = Contract(key, **kw)
     CONTRACTS[key] = c
     return c
